@@ -71,9 +71,11 @@ type mirrorWorld struct {
 	tickets []*mirrorTicket
 	parked  []*mirrorReq
 	maxPark int
-	fails   []eng.OracleFailure
-	steps   []string
-	broken  bool // the harness lost control of a request goroutine
+	// >0: advance waits only this long for the released request to park or finish
+	timedRelease time.Duration
+	fails        []eng.OracleFailure
+	steps        []string
+	broken       bool // the harness lost control of a request goroutine
 }
 
 func (w *mirrorWorld) line(format string, a ...any) {
@@ -213,6 +215,7 @@ const (
 	mirrorParkedCommit
 	mirrorDone
 	mirrorAbandoned
+	mirrorParkedUpload // inside the commit, at the upload of the public mirror checkpoint (still holding what the commit holds)
 )
 
 type mirrorEvent struct {
@@ -259,6 +262,8 @@ type mirrorReq struct {
 	mrepN       int64
 	mrepRoot    [32]byte
 	mupOK       bool
+	parkAtMck   bool // park this request when it uploads the public mirror checkpoint
+	blocked     bool // released, but neither parked nor finished within the timed wait (waiting for a lock another request holds)
 
 	status int
 	class  string
@@ -684,6 +689,9 @@ func (w *mirrorWorld) handle(r *mirrorReq, e mirrorEvent) {
 		r.pastMeta = true
 		r.state = mirrorParkedCommit
 		w.park(r)
+	case mirrorParkedUpload:
+		r.state = mirrorParkedUpload
+		w.park(r)
 	default:
 		w.unpark(r)
 		r.state = mirrorDone
@@ -714,10 +722,12 @@ func (w *mirrorWorld) unpark(r *mirrorReq) {
 
 // advance releases a parked request for exactly one step.
 func (w *mirrorWorld) advance(r *mirrorReq) {
-	if r.epoch != w.epoch || (r.state != mirrorParkedPkg && r.state != mirrorParkedCommit) {
+	if r.epoch != w.epoch || (r.state != mirrorParkedPkg && r.state != mirrorParkedCommit && r.state != mirrorParkedUpload) {
 		return
 	}
 	switch r.state {
+	case mirrorParkedUpload:
+		w.step("adv#%d mirror-checkpoint upload", r.rid)
 	case mirrorParkedPkg:
 		i := r.pkg
 		r.pkg++
@@ -757,12 +767,35 @@ func (w *mirrorWorld) advance(r *mirrorReq) {
 		w.st.Count(fmt.Sprintf("fault:commit:fm=%s,fp=%s,fh=%s,fw=%s,ud=%s,uh=%s,rep=%s,up=%s", mirrorOkErr(p.fm), mirrorOkErr(p.fp), mirrorOkErr(p.fh), mirrorOkErr(p.fw), p.outs[0], p.outs[1], p.rep, p.up))
 		w.step("adv#%d commit rep=%s up=%s", r.rid, p.rep, p.up)
 	}
+	if w.timedRelease > 0 {
+		// another request may be holding the log's mutex at a parked store operation: this one then neither parks nor
+		// finishes until that one is released
+		mirrorCur = r
+		r.rel <- struct{}{}
+		select {
+		case e := <-r.ev:
+			mirrorCur = nil
+			w.handle(r, e)
+		case <-time.After(w.timedRelease):
+			r.blocked = true
+			w.st.Count("commit-blocked-behind-parked-upload")
+		}
+		return
+	}
 	w.handle(r, w.release(r))
+}
+
+// unblock waits for a request that was released while another one held the log's mutex.
+func (w *mirrorWorld) unblock(r *mirrorReq) {
+	if r.blocked {
+		r.blocked = false
+		w.handle(r, w.wait(r))
+	}
 }
 
 // finish advances r until it responds.
 func (w *mirrorWorld) finish(r *mirrorReq) *mirrorReq {
-	for n := 0; r.epoch == w.epoch && (r.state == mirrorParkedPkg || r.state == mirrorParkedCommit) && n < 10000; n++ {
+	for n := 0; r.epoch == w.epoch && (r.state == mirrorParkedPkg || r.state == mirrorParkedCommit || r.state == mirrorParkedUpload) && n < 10000; n++ {
 		w.advance(r)
 	}
 	return r
